@@ -304,6 +304,31 @@ func runC01(c *rt.Ctx) {
 			})
 		})
 	}
+	// configuration: a package-level Formatter that fails; String and the verbs fall back to DefaultFormatter
+	{
+		oldF := date.Formatter
+		date.Formatter = func(buf []byte, d date.Date, f date.Format) ([]byte, error) { return nil, errors.New("formatter refuses") }
+		c.Serial("failing-formatter", func(w *rt.W) {
+			for _, ymd := range [][3]int{{1, 1, 1}, {0, 1, 1}, {2000, 2, 29}, {9999, 12, 31}, {476, 9, 4}, {2021, 10, 9}} {
+				dt := date.New(ymd[0], date.Month(ymd[1]), ymd[2])
+				wantE, wantB := ref.DateText(int64(ymd[0]), ymd[1], ymd[2], false), ref.DateText(int64(ymd[0]), ymd[1], ymd[2], true)
+				for _, vb := range []struct{ verb, want string }{{"%s", wantE}, {"%v", wantE}, {"%e", wantE}, {"%b", wantB}} {
+					if g := fmt.Sprintf(vb.verb, dt); g != vb.want {
+						c01Fail(w, "failing-formatter-fallback", int64(ymd[0]), ymd[1], ymd[2], "Sprintf "+vb.verb+" with a failing Formatter", g, vb.want)
+					}
+				}
+				if g := dt.String(); g != wantE {
+					c01Fail(w, "failing-formatter-fallback", int64(ymd[0]), ymd[1], ymd[2], "String with a failing Formatter", g, wantE)
+				}
+				if b, err := dt.MarshalText(); err == nil {
+					c01Fail(w, "failing-formatter-fallback", int64(ymd[0]), ymd[1], ymd[2], "MarshalText with a failing Formatter", string(b), "an error")
+				}
+				w.Eval(6)
+				w.ClassN("failing-formatter", 1)
+			}
+		})
+		date.Formatter = oldF
+	}
 	c.Extra("local_zones", len(hostileZones()))
 	c.Require("local-zone-sweep", int64(len(hostileZones())))
 	for _, cl := range []string{"leap-day", "month-end", "dec-31", "jan-1", "year-0000", "year-9999", "full-path-cross-product",
